@@ -30,15 +30,13 @@ def step_classes(before, x):
     tgt = sup.get("rev")
     # finding 7: revisions whose discard-snap completed before the failure are gone (no undo for discard-snap)
     gone = [r for kd, r in done if kd == "discard-snap"]
-    # finding 6: a non-revert link-snap onto a kept revision drops its RevertStatus entry; undo does not put it back
-    linked = any(kd == "link-snap" for kd, r in done)
-    rs_applies = linked and not sup.get("revert") and tgt in before["seq"] and tgt in before["not-blocked"]
+    # (finding 6, RevertStatus lost by an undone non-revert refresh onto a kept revision, was repaired in /repo by 5dcb85f:
+    # it is no longer a known class, a recurrence is a VIOLATION)
     # finding 13: a snap that had no configuration keeps what the configure hook of the failed change wrote
     # (SaveRevisionConfig saves nothing when there is no configuration, so undoLinkSnap has nothing to restore)
     hooked = any(kd == "hook:configure" for kd, r in done) and x.get("hookcfg", 0) > 0
     cfg_applies = hooked and before["cfg"] == 0 and bool(before["seq"])
-    optional = [c for c, ok in (("fail-after-discard", bool(gone)), ("revert-status-lost", rs_applies),
-                                ("config-from-nothing", cfg_applies)) if ok]
+    optional = [c for c, ok in (("fail-after-discard", bool(gone)), ("config-from-nothing", cfg_applies)) if ok]
     for n in range(1, len(optional) + 1):
         for classes in itertools.combinations(optional, n):
             exp = dict(proj(before))
@@ -46,8 +44,6 @@ def step_classes(before, x):
                 exp["seq"] = [r for r in exp["seq"] if r not in gone]
                 exp["mounted"] = [r for r in exp["mounted"] if r not in gone]
                 exp["not-blocked"] = [r for r in exp["not-blocked"] if r not in gone]
-            if "revert-status-lost" in classes:
-                exp["not-blocked"] = [r for r in exp["not-blocked"] if r != tgt]
             if "config-from-nothing" in classes:
                 exp["cfg"] = x["hookcfg"]
             exp["block"] = block_of(exp["seq"], exp["current"], exp["not-blocked"])
@@ -75,7 +71,7 @@ def classify(case):
     # every violating step is explained by recorded findings: the history is reported under the class of its first
     # violating step, so that each recorded class is met by the sweep that was written for it
     first = found[0]
-    for key in ("revert-status-lost", "config-from-nothing", "fail-after-discard"):
+    for key in ("config-from-nothing", "fail-after-discard"):
         if key in first:
             return key
     return None
@@ -99,7 +95,7 @@ SPEC = dict(
           "snapstate entry points, handlers and task runner with the package's fake backend and store; every change may get "
           "a failure (an error-trigger task in place of its k-th task, k random) and 8 base histories (plus one fixed remove/enable history) sweep EVERY failure "
           "position 1..tasks+1 of their last operation (install, refresh with and without garbage collection, refresh to a "
-          "kept revision, revert, revert-to not-blocking, the two recorded findings, configure hook writing configuration). "
+          "kept revision, revert, revert-to not-blocking, the repaired finding 6 as a regression history, the recorded findings 7 and 13). "
           "Non-trivial = a history with a change that failed after its link-snap completed."),
     exhaustive=dict(quick=False, thorough=False),
     trusted_base=[
@@ -108,7 +104,7 @@ SPEC = dict(
         "failure injection = an error-trigger task spliced in place of the k-th task: the failing task has no partial effect",
     ],
     assumptions=[
-        "GUARDED: the full statement is false in three recorded classes (KNOWN_FINDINGS fail-after-discard, revert-status-lost, config-from-nothing); the theorem excludes exactly these; what is restored after a completed discard is compared with the model on the real code but not stated as a theorem",
+        "GUARDED: the full statement is false in two recorded classes (KNOWN_FINDINGS fail-after-discard, config-from-nothing; a third, revert-status-lost, was repaired in /repo by 5dcb85f and its guard removed); the theorem excludes exactly these; what is restored after a completed discard is compared with the model on the real code but not stated as a theorem",
         "the SnapSetup fields of a change (channel, flags, cohort, revert status) are read back from the change: how Install/Update/Revert derive them from user flags is not modelled",
         "not modelled: aliases, services, security profiles, data directories, components, snap types other than app, partial effects of the failing task; cohort keys other than the empty one are not generated",
         "`wf` (the invariant the theorem assumes of the state before the operation) is proved to be preserved only for the operations listed in props/C11.v",
